@@ -70,9 +70,12 @@ type c10Ans struct {
 }
 
 type c10Script struct {
-	Name string   `json:"name"`
-	Seq  []c10Ans `json:"seq,omitempty"`
-	Tail c10Ans   `json:"tail"`
+	Name string `json:"name"`
+	// an outage: the first Down requests get DownAns (compact form of a long failure script)
+	Down    int      `json:"down,omitempty"`
+	DownAns c10Ans   `json:"down_ans,omitempty"`
+	Seq     []c10Ans `json:"seq,omitempty"`
+	Tail    c10Ans   `json:"tail"`
 }
 
 type c10CacheEnt struct {
@@ -91,20 +94,22 @@ type c10ProbeEnt struct {
 }
 
 type c10Input struct {
-	Client     string        `json:"client"` // none | script | file
-	Names      []string      `json:"names"`
-	PrefixKind int           `json:"prefix_kind,omitempty"` // index into c10Prefixes: how the struct's prefix is spelled
-	Struct     bool          `json:"struct,omitempty"`      // two more names declared through a tagged struct
-	Allow      bool          `json:"allow,omitempty"`
-	Cache      string        `json:"cache"` // none | empty | garbage | doc
-	CacheDoc   []c10CacheEnt `json:"cache_doc,omitempty"`
-	AgeS       int64         `json:"age_s,omitempty"`
-	Scripts    []c10Script   `json:"scripts,omitempty"` // for client=file: the file's contents (tail only)
-	Strict     bool          `json:"strict,omitempty"`
-	DeadlineUs int64         `json:"deadline_us"` // relative to the call; <0 none; 0 = cancelled before the call
-	StartMs    int64         `json:"start_ms,omitempty"`
-	ProbeDtS   int64         `json:"probe_dt_s,omitempty"`
-	Probe      []c10ProbeEnt `json:"probe,omitempty"`
+	Client     string          `json:"client"` // none | script | file
+	Names      []string        `json:"names"`
+	PrefixKind int             `json:"prefix_kind,omitempty"` // index into c10Prefixes: how the struct's prefix is spelled
+	Struct     bool            `json:"struct,omitempty"`      // two more names declared through a tagged struct
+	Structs    []c10StructSpec `json:"structs,omitempty"`     // further entries of StoreConfig.Structs
+	Allow      bool            `json:"allow,omitempty"`
+	Cache      string          `json:"cache"` // none | empty | garbage | doc
+	CacheDoc   []c10CacheEnt   `json:"cache_doc,omitempty"`
+	AgeS       int64           `json:"age_s,omitempty"`
+	Scripts    []c10Script     `json:"scripts,omitempty"` // for client=file: the file's contents (tail only)
+	Strict     bool            `json:"strict,omitempty"`
+	DeadlineUs int64           `json:"deadline_us"` // relative to the call; <0 none; 0 = cancelled before the call
+	StartMs    int64           `json:"start_ms,omitempty"`
+	OutageMs   int64           `json:"outage_ms,omitempty"` // (statistics) a name is down this long under a deadline-free context
+	ProbeDtS   int64           `json:"probe_dt_s,omitempty"`
+	Probe      []c10ProbeEnt   `json:"probe,omitempty"`
 }
 
 type c10Tagged struct {
@@ -112,14 +117,66 @@ type c10Tagged struct {
 	B string `setec:"tb"`
 }
 
+// further struct types for configurations with several entries in StoreConfig.Structs: c10Tagged2 shares the
+// tag "ta" with c10Tagged (overlapping name sets under equal prefixes), c10Tagged3 is disjoint from both
+type c10Tagged2 struct {
+	C []byte `setec:"tc"`
+	A string `setec:"ta"`
+}
+
+type c10Tagged3 struct {
+	D string `setec:"td"`
+}
+
+// one entry of StoreConfig.Structs: which struct type (0 c10Tagged, 1 c10Tagged2, 2 c10Tagged3) and how its prefix is spelled
+type c10StructSpec struct {
+	Type   int `json:"type,omitempty"`
+	Prefix int `json:"prefix,omitempty"` // index into c10Prefixes
+}
+
+var c10StructTags = [][]string{{"ta", "tb"}, {"tc", "ta"}, {"td"}}
+
+// c10Structs: the Structs of the configuration (the older single-struct form included)
+func c10Structs(in c10Input) []c10StructSpec {
+	if in.Struct {
+		return append([]c10StructSpec{{Type: 0, Prefix: in.PrefixKind}}, in.Structs...)
+	}
+	return in.Structs
+}
+
+func c10SpecNames(sp c10StructSpec) []string {
+	var out []string
+	for _, tag := range c10StructTags[sp.Type%len(c10StructTags)] {
+		out = append(out, path.Join(c10Prefixes[sp.Prefix%len(c10Prefixes)], tag))
+	}
+	return out
+}
+
+// a struct value of the spec's type, and a reader of its fields (tokens, in field order)
+func c10NewStruct(sp c10StructSpec) (any, func() []int64) {
+	switch sp.Type % len(c10StructTags) {
+	case 1:
+		v := &c10Tagged2{}
+		return v, func() []int64 { return []int64{int64(c10Tok(v.C)), int64(c10Tok([]byte(v.A)))} }
+	case 2:
+		v := &c10Tagged3{}
+		return v, func() []int64 { return []int64{int64(c10Tok([]byte(v.D)))} }
+	}
+	v := &c10Tagged{}
+	return v, func() []int64 { return []int64{int64(c10Tok(v.A)), int64(c10Tok([]byte(v.B)))} }
+}
+
 // spellings of the struct prefix: the declared names are the slash-joined, cleaned names (path.Join), the same
 // ones Fields.Apply looks up - "p/ta", "p/tb" for all spellings but the empty prefix
-var c10Prefixes = []string{"p", "p/", "./p", "p//", ""}
+var c10Prefixes = []string{"p", "p/", "./p", "p//", "", "q", "q/r"}
 
-func c10PrefixOf(in c10Input) string { return c10Prefixes[in.PrefixKind%len(c10Prefixes)] }
-
+// c10StructNames: the names Fields.Apply looks up, struct by struct, field by field (with repetitions)
 func c10StructNames(in c10Input) []string {
-	return []string{path.Join(c10PrefixOf(in), "ta"), path.Join(c10PrefixOf(in), "tb")}
+	var out []string
+	for _, sp := range c10Structs(in) {
+		out = append(out, c10SpecNames(sp)...)
+	}
+	return out
 }
 
 // ---- scripted client ----
@@ -189,8 +246,10 @@ func (c *c10Client) serve(ctx context.Context, name string) (c10Ans, error) {
 	c.mu.Unlock()
 	a := c10Ans{Err: "notfound"}
 	if ok {
-		if j < len(sc.Seq) {
-			a = sc.Seq[j]
+		if j < sc.Down {
+			a = sc.DownAns
+		} else if j-sc.Down < len(sc.Seq) {
+			a = sc.Seq[j-sc.Down]
 		} else {
 			a = sc.Tail
 		}
@@ -437,16 +496,13 @@ type c10Obs struct {
 	POK       bool             `json:"pok,omitempty"`
 	PWrites   [][]c10DocEnt    `json:"pwrites,omitempty"`
 	Vals      map[string]int64 `json:"vals,omitempty"`       // -1 = nil handle
+	Fields    []int64          `json:"fields,omitempty"`     // the tagged struct fields (tokens), struct by struct, field by field
 	Sent      int              `json:"sent,omitempty"`       // which api sentinel the returned error is: 1 not found, 2 access denied, 3 not changed
 	BadHandle string           `json:"bad_handle,omitempty"` // sanity pass: a known name whose handle panics
 }
 
 func c10Declared(in c10Input) []string {
-	names := append([]string(nil), in.Names...)
-	if in.Struct {
-		names = append(names, c10StructNames(in)...)
-	}
-	return names
+	return append(append([]string(nil), in.Names...), c10StructNames(in)...)
 }
 
 func c10Distinct(names []string) []string {
@@ -503,9 +559,11 @@ func c10Scenario(t *testing.T, in c10Input, work string, idx int, probe bool) (o
 		ExpiryAge: time.Duration(in.AgeS) * time.Second,
 		Logf:      func(string, ...any) {},
 	}
-	var tagged c10Tagged
-	if in.Struct {
-		cfg.Structs = []setec.Struct{{Value: &tagged, Prefix: c10PrefixOf(in)}}
+	var readers []func() []int64
+	for _, sp := range c10Structs(in) {
+		v, rd := c10NewStruct(sp)
+		cfg.Structs = append(cfg.Structs, setec.Struct{Value: v, Prefix: c10Prefixes[sp.Prefix%len(c10Prefixes)]})
+		readers = append(readers, rd)
 	}
 	switch in.Client {
 	case "script":
@@ -546,8 +604,12 @@ func c10Scenario(t *testing.T, in c10Input, work string, idx int, probe bool) (o
 	var cancel context.CancelFunc
 	switch {
 	case in.DeadlineUs < 0:
-		// watchdog only (not told to the model): a correct store returns long before
-		ctx, cancel = context.WithTimeout(context.Background(), time.Hour)
+		// a context WITHOUT a deadline (ctx.Deadline() reports none), cancelled only by the scenario: a watchdog
+		// (not told to the model) cancels it after 3 h of virtual time; a correct store returns long before
+		var c0 context.CancelFunc
+		ctx, c0 = context.WithCancel(context.Background())
+		wd := time.AfterFunc(3*time.Hour, c0)
+		cancel = func() { wd.Stop(); c0() }
 	case in.DeadlineUs == 0:
 		ctx, cancel = context.WithCancel(context.Background())
 		cancel()
@@ -656,12 +718,9 @@ func c10Scenario(t *testing.T, in c10Input, work string, idx int, probe bool) (o
 			}()
 		}
 	}
-	if in.Struct {
-		// the struct fields were populated at construction
-		sn := c10StructNames(in)
-		obs.Vals["<field A>"] = int64(c10Tok(tagged.A))
-		obs.Vals["<field B>"] = int64(c10Tok([]byte(tagged.B)))
-		_ = sn
+	// the struct fields were populated at construction
+	for _, rd := range readers {
+		obs.Fields = append(obs.Fields, rd()...)
 	}
 	return obs, nil
 }
@@ -742,7 +801,11 @@ func c10Coq(in c10Input, obs c10Obs) string {
 		for j, a := range s.Seq {
 			seq[j] = c10CoqAns(a)
 		}
-		parts[i] = fmt.Sprintf("(%s,(%s,%s))", coqBytes([]byte(s.Name)), coqList(seq), c10CoqAns(s.Tail))
+		sq := coqList(seq)
+		if s.Down > 0 {
+			sq = fmt.Sprintf("(Rep %d (%s) %s)", s.Down, c10CoqAns(s.DownAns), sq)
+		}
+		parts[i] = fmt.Sprintf("(%s,(%s,%s))", coqBytes([]byte(s.Name)), sq, c10CoqAns(s.Tail))
 	}
 	sb.WriteString(coqList(parts) + " ")
 	sb.WriteString(coqBool(in.Strict) + " ")
@@ -759,11 +822,7 @@ func c10Coq(in c10Input, obs c10Obs) string {
 		rp[i] = c10CoqNames(r)
 	}
 	sb.WriteString(coqList(rp) + " ")
-	if in.Struct {
-		sb.WriteString(c10CoqNames(c10StructNames(in)) + " ")
-	} else {
-		sb.WriteString("[] ")
-	}
+	sb.WriteString(c10CoqNames(c10StructNames(in)) + " ")
 	fmt.Fprintf(&sb, "%d ", in.ProbeDtS*1000000000)
 	pp := make([]string, len(in.Probe))
 	for i, p := range in.Probe {
@@ -796,11 +855,10 @@ func c10Coq(in c10Input, obs c10Obs) string {
 		if v >= 0 {
 			o = fmt.Sprintf("(Some %d)", v)
 		}
-		if strings.HasPrefix(k, "<field") {
-			fields = append(fields, o)
-			continue
-		}
 		vals = append(vals, fmt.Sprintf("(%s,%s)", coqBytes([]byte(k)), o))
+	}
+	for _, v := range obs.Fields {
+		fields = append(fields, fmt.Sprintf("(Some %d)", v))
 	}
 	fmt.Fprintf(&sb, "(ObsOk %d %s %s %s %s %s %s %s)", obs.T, c10CoqReqs(obs.Reqs), docs(obs.Writes),
 		coqList(pr), coqBool(obs.POK), docs(obs.PWrites), coqList(vals), coqList(fields))
@@ -843,9 +901,26 @@ func c10Gen(r *rand.Rand) c10Input {
 		r.Shuffle(len(in.Names), func(i, j int) { in.Names[i], in.Names[j] = in.Names[j], in.Names[i] })
 	}
 	in.Allow = r.IntN(3) == 0
-	in.Struct = r.IntN(7) == 0
-	if in.Struct && r.IntN(2) == 0 {
-		in.PrefixKind = 1 + r.IntN(len(c10Prefixes)-1)
+	// StoreConfig.Structs: 0 (70%), 1, 2 or 3 entries; struct types with overlapping ("ta") and disjoint tags,
+	// equal (half of the time) or different prefixes; sometimes no cfg.Secrets next to them
+	if k := r.IntN(20); k >= 14 {
+		ns := 1
+		if k >= 16 {
+			ns = 2
+		}
+		if k >= 19 {
+			ns = 3
+		}
+		for i := 0; i < ns; i++ {
+			sp := c10StructSpec{Type: r.IntN(len(c10StructTags)), Prefix: r.IntN(len(c10Prefixes))}
+			if i > 0 && r.IntN(2) == 0 {
+				sp.Prefix = in.Structs[0].Prefix
+			}
+			in.Structs = append(in.Structs, sp)
+		}
+		if r.IntN(3) == 0 {
+			in.Names = nil
+		}
 	}
 	switch r.IntN(40) {
 	case 0:
@@ -853,9 +928,9 @@ func c10Gen(r *rand.Rand) c10Input {
 	case 1:
 		in.Names = append(in.Names, "")
 	case 2:
-		in.Names, in.Struct, in.Allow = nil, false, false
+		in.Names, in.Structs, in.Allow = nil, nil, false
 	case 3, 4:
-		in.Names, in.Struct, in.Allow = nil, false, true
+		in.Names, in.Structs, in.Allow = nil, nil, true
 	}
 	if in.Client != "none" {
 		switch r.IntN(5) {
@@ -1002,6 +1077,43 @@ func c10Gen(r *rand.Rand) c10Input {
 			}
 		}
 	}
+	if in.Client != "file" && in.Client != "none" && len(in.Scripts) > 0 && r.IntN(20) == 0 {
+		// a long outage under a context WITHOUT a deadline: one or two names are down for 4:59, 5:01, 10 or 31 minutes
+		// of virtual time (hundreds of rounds at the 4096 ms cap), then the service recovers: NewStore must still be
+		// retrying and return nil at the first round after the recovery
+		in.DeadlineUs = -1
+		in.OutageMs = c10Pick(r, []int64{299000, 301000, 301000, 600000, 1860000})
+		fail := func() c10Ans {
+			a := c10GenAns(r, false)
+			a.LatMs = 0
+			if in.Client == "http" {
+				a.HTTP, a.Err = []string{"404", "403", "500", "garbage"}[r.IntN(4)], ""
+			}
+			return a
+		}
+		for i := range in.Scripts {
+			sc := &in.Scripts[i]
+			for j := range sc.Seq {
+				sc.Seq[j].LatMs = 0
+				if sc.Seq[j].HTTP == "hang" {
+					sc.Seq[j] = fail()
+				}
+			}
+			sc.Tail.LatMs = 0
+			if sc.Tail.Ver == 0 { // every name recovers in the end
+				sc.Tail = c10Ans{Ver: 1 + uint32(r.IntN(9)), Val: 1 + r.IntN(c10MaxTok)}
+				if in.Client == "http" {
+					sc.Tail.HTTP = "200"
+				}
+			}
+			if i == 0 || (i == 1 && r.IntN(2) == 0) {
+				sc.Down, sc.DownAns = c10RoundsBefore(in.OutageMs), fail()
+				if len(sc.Seq) > 3 {
+					sc.Seq = sc.Seq[:3]
+				}
+			}
+		}
+	}
 	if in.Client == "file" && in.DeadlineUs < 0 {
 		// a file client must fail at once; the deadline only bounds a store that would keep retrying
 		in.DeadlineUs = 10000500
@@ -1024,7 +1136,7 @@ func c10Gen(r *rand.Rand) c10Input {
 		}
 	} else {
 		for _, nm := range c10Distinct(known) {
-			if in.Struct && contains(c10StructNames(in), nm) {
+			if contains(c10StructNames(in), nm) {
 				continue
 			}
 			switch r.IntN(12) {
@@ -1038,6 +1150,20 @@ func c10Gen(r *rand.Rand) c10Input {
 		}
 	}
 	return in
+}
+
+// c10RoundsBefore: how many rounds of initializeActive start before ms (rounds start at 0, 1, 3, 7, ..., 8191 ms,
+// then every 4096 ms, when requests take no time)
+func c10RoundsBefore(ms int64) int {
+	n, t, w := 0, int64(0), int64(1)
+	for t < ms {
+		n++
+		t += w
+		if w < 4000 {
+			w *= 2
+		}
+	}
+	return n
 }
 
 func c10HasEnt(es []c10CacheEnt, n string) bool {
@@ -1107,8 +1233,35 @@ func c10Tags(in c10Input, obs c10Obs) []string {
 	if len(obs.PWrites) > 0 {
 		tags = append(tags, "probe-changed")
 	}
-	if in.Struct {
-		tags = append(tags, "struct")
+	if n := len(c10Structs(in)); n > 0 {
+		tags = append(tags, fmt.Sprintf("structs=%d", n))
+		if n > 1 {
+			tags = append(tags, "multi-struct")
+			if len(in.Names) == 0 {
+				tags = append(tags, "multi-struct:no-cfg.Secrets")
+			}
+			if in.Allow {
+				tags = append(tags, "multi-struct:lookups-on")
+			} else {
+				tags = append(tags, "multi-struct:lookups-off")
+			}
+			sn := c10StructNames(in)
+			if len(c10Distinct(sn)) < len(sn) {
+				tags = append(tags, "multi-struct:overlapping-names")
+			}
+			for _, rq := range obs.Reqs {
+				if rq.Ver == 0 && contains(sn, rq.Name) {
+					tags = append(tags, "multi-struct:tagged-name-retried")
+					break
+				}
+			}
+		}
+	}
+	if in.OutageMs > 0 {
+		tags = append(tags, "long-outage", fmt.Sprintf("long-outage=%v", time.Duration(in.OutageMs)*time.Millisecond))
+		if obs.Class == "ok" && obs.T-obs.T0 > 5*60*1000000000 {
+			tags = append(tags, "long-outage:success-after-minute-5")
+		}
 	}
 	return tags
 }
